@@ -90,6 +90,16 @@ func AcceptOrdinalSaleListing2Dummies(ctx context.Context, vla *ValidateListingA
 		}
 	}
 
+	// no change output was added when the funds only just cover the outputs:
+	// make sure the completed transaction still pays the quoted fee
+	enough, err := tx.IsFeePaidEnough(asoa.FQ)
+	if err != nil {
+		return nil, err
+	}
+	if !enough {
+		return nil, bt.ErrInsufficientFees
+	}
+
 	return tx, nil
 }
 
